@@ -28,27 +28,6 @@ structure RingLike (o : Ops R) : Prop where
 
 theorem ringOps_ringLike : RingLike (ringOps R) := ⟨fun _ _ => rfl, fun _ _ => rfl, fun _ _ => rfl, fun _ => rfl, fun _ => rfl⟩
 
-/-! ### level 0: literal atoms -/
-
-theorem mem_insertNew0 {l : List E} {x y : E} : x ∈ insertNew0 l y ↔ x ∈ l ∨ x = y := by
-  unfold insertNew0
-  split
-  · rename_i h
-    have : y ∈ l := by simpa using h
-    constructor
-    · exact Or.inl
-    · rintro (h | rfl) <;> assumption
-  · simp
-
-theorem mem_foldl_insertNew0 {xs acc : List E} {x : E} :
-    x ∈ xs.foldl insertNew0 acc ↔ x ∈ acc ∨ x ∈ xs := by
-  induction xs generalizing acc with
-  | nil => simp
-  | cons y ys ih => rw [List.foldl_cons, ih, mem_insertNew0]; simp [or_assoc]
-
-theorem mem_atomTable0 {es : List E} {t : E} : t ∈ atomTable0 es ↔ ∃ e ∈ es, t ∈ e.atoms := by
-  simp [atomTable0, mem_foldl_insertNew0]
-
 /-- the context interpreting atom number `i` by the value of the `i`-th atom -/
 noncomputable def atomCtx (o : Ops R) (env : Nat → R) (A : List E) : Lean.RArray R :=
   Lean.RArray.ofFn (n := A.length + 1) (fun i => (A.getD i default).eval o env) (Nat.succ_pos _)
@@ -61,74 +40,17 @@ theorem atomCtx_get_lt (o : Ops R) (env : Nat → R) (A : List E) (i : Nat) (hlt
   rw [this]
   simp [List.getD_eq_getElem?_getD, List.getElem?_eq_getElem hlt]
 
-theorem atomCtx_get0 (o : Ops R) (env : Nat → R) (A : List E) (t : E) (ht : t ∈ A) :
-    (atomCtx o env A).get (A.idxOf t) = t.eval o env := by
-  have hlt : A.idxOf t < A.length := List.idxOf_lt_length_of_mem ht
-  rw [atomCtx_get_lt o env A _ hlt, List.getElem_idxOf hlt]
+section W
+variable (eqv : E → E → Bool)
 
-theorem E.toGA0_denote (o : Ops R) (ho : RingLike o) (env : Nat → R) (A : List E) (e : E)
-    (hA : ∀ t ∈ e.atoms, t ∈ A) :
-    (e.toGA0 A).denote (atomCtx o env A) = e.eval o env := by
-  induction e with
-  | add a b iha ihb =>
-    simp only [E.atoms, List.mem_append] at hA
-    simp only [E.toGA0, Expr.denote, E.eval, ho.add]
-    rw [← iha (fun t h => hA t (Or.inl h)), ← ihb (fun t h => hA t (Or.inr h))]; rfl
-  | sub a b iha ihb =>
-    simp only [E.atoms, List.mem_append] at hA
-    simp only [E.toGA0, Expr.denote, E.eval, ho.sub]
-    rw [← iha (fun t h => hA t (Or.inl h)), ← ihb (fun t h => hA t (Or.inr h))]; rfl
-  | mul a b iha ihb =>
-    simp only [E.atoms, List.mem_append] at hA
-    simp only [E.toGA0, Expr.denote, E.eval, ho.mul]
-    rw [← iha (fun t h => hA t (Or.inl h)), ← ihb (fun t h => hA t (Or.inr h))]; rfl
-  | neg a iha =>
-    simp only [E.atoms] at hA
-    simp only [E.toGA0, Expr.denote, E.eval, ho.neg]
-    rw [← iha hA]; rfl
-  | lit n d =>
-    by_cases hd : d = 1
-    · subst hd; simp [E.toGA0, Expr.denote, E.eval, ho.lit]
-    · have hd' : (d == 1) = false := by simpa using hd
-      simp only [E.toGA0, hd', Bool.false_eq_true, if_false]
-      exact atomCtx_get0 o env A _ (hA _ (by simp [E.atoms, hd']))
-  | _ => exact atomCtx_get0 o env A _ (hA _ (by simp [E.atoms]))
+/-- `t` is represented in `l`: some element of `l` is `eqv` to it -/
+def Repr' (l : List E) (t : E) : Prop := ∃ a ∈ l, eqv a t = true
 
-theorem polyEq0_sound {o : Ops R} (ho : RingLike o) {a b : E} (h : polyEq0 a b = true) (env : Nat → R) :
-    a.eval o env = b.eval o env := by
-  simp only [polyEq0] at h
-  have ha : ∀ t ∈ a.atoms, t ∈ atomTable0 [a, b] := fun t ht => mem_atomTable0.2 ⟨a, by simp, ht⟩
-  have hb : ∀ t ∈ b.atoms, t ∈ atomTable0 [a, b] := fun t ht => mem_atomTable0.2 ⟨b, by simp, ht⟩
-  rw [← E.toGA0_denote o ho env _ a ha, ← E.toGA0_denote o ho env _ b hb]
-  exact Expr.eq_of_toPoly_eq _ _ _ h
+variable {eqv}
 
-/-! ### level 1: atoms up to polynomial equality of their arguments -/
-
-theorem atomEq_sound {o : Ops R} (ho : RingLike o) {x y : E} (h : atomEq x y = true) (env : Nat → R) :
-    x.eval o env = y.eval o env := by
-  unfold atomEq at h
-  rw [Bool.or_eq_true] at h
-  rcases h with h | h
-  · rw [eq_of_beq h]
-  · split at h
-    · rename_i f a g b
-      simp only [Bool.and_eq_true] at h
-      simp only [E.eval, eq_of_beq h.1, polyEq0_sound ho h.2 env]
-    · rename_i f a1 a2 g b1 b2
-      simp only [Bool.and_eq_true] at h
-      simp only [E.eval, eq_of_beq h.1.1, polyEq0_sound ho h.1.2 env, polyEq0_sound ho h.2 env]
-    · rename_i a1 a2 b1 b2
-      simp only [Bool.and_eq_true] at h
-      simp only [E.eval, polyEq0_sound ho h.1 env, polyEq0_sound ho h.2 env]
-    · simp at h
-
-theorem atomEq_refl (x : E) : atomEq x x = true := by simp [atomEq]
-
-/-- `t` is represented in `l`: some element of `l` is `atomEq` to it -/
-def Repr' (l : List E) (t : E) : Prop := ∃ a ∈ l, atomEq a t = true
-
-theorem repr_insertNew {l : List E} {x y : E} (h : Repr' l x ∨ x = y) : Repr' (insertNew l y) x := by
-  unfold insertNew
+theorem repr_insertNew (hrefl : ∀ x, eqv x x = true) {l : List E} {x y : E} (h : Repr' eqv l x ∨ x = y) :
+    Repr' eqv (insertNewW eqv l y) x := by
+  unfold insertNewW
   split
   · rename_i hany
     rcases h with h | rfl
@@ -136,68 +58,109 @@ theorem repr_insertNew {l : List E} {x y : E} (h : Repr' l x ∨ x = y) : Repr' 
     · simpa [Repr'] using hany
   · rcases h with ⟨a, ha, hax⟩ | rfl
     · exact ⟨a, by simp [ha], hax⟩
-    · exact ⟨x, by simp, atomEq_refl x⟩
+    · exact ⟨x, by simp, hrefl x⟩
 
-theorem repr_foldl_insertNew {xs acc : List E} {x : E} (h : Repr' acc x ∨ x ∈ xs) :
-    Repr' (xs.foldl insertNew acc) x := by
+theorem repr_foldl_insertNew (hrefl : ∀ x, eqv x x = true) {xs acc : List E} {x : E}
+    (h : Repr' eqv acc x ∨ x ∈ xs) : Repr' eqv (xs.foldl (insertNewW eqv) acc) x := by
   induction xs generalizing acc with
   | nil => simpa using h
   | cons y ys ih =>
     rw [List.foldl_cons]
     apply ih
     rcases h with h | h
-    · exact Or.inl (repr_insertNew (Or.inl h))
+    · exact Or.inl (repr_insertNew hrefl (Or.inl h))
     · rcases List.mem_cons.1 h with rfl | h
-      · exact Or.inl (repr_insertNew (Or.inr rfl))
+      · exact Or.inl (repr_insertNew hrefl (Or.inr rfl))
       · exact Or.inr h
 
-theorem repr_atomTable {es : List E} {e t : E} (he : e ∈ es) (ht : t ∈ e.atoms) : Repr' (atomTable es) t := by
-  apply repr_foldl_insertNew
+theorem repr_atomTable (hrefl : ∀ x, eqv x x = true) {es : List E} {e t : E} (he : e ∈ es) (ht : t ∈ e.atoms) :
+    Repr' eqv (atomTableW eqv es) t := by
+  apply repr_foldl_insertNew hrefl
   exact Or.inr (List.mem_flatMap.2 ⟨e, he, ht⟩)
 
-theorem atomCtx_get {o : Ops R} (ho : RingLike o) (env : Nat → R) (A : List E) (t : E) (ht : Repr' A t) :
-    (atomCtx o env A).get (atomIdx A t) = t.eval o env := by
-  obtain ⟨a, ha, hat⟩ := ht
-  have hex : ∃ x ∈ A, (atomEq · t) x = true := ⟨a, ha, hat⟩
-  have hlt : atomIdx A t < A.length := List.findIdx_lt_length_of_exists hex
-  rw [atomCtx_get_lt o env A _ hlt]
-  exact atomEq_sound ho (List.findIdx_getElem (p := (atomEq · t)) (w := hlt)) env
+variable {o : Ops R} (env : Nat → R) (hsound : ∀ x y, eqv x y = true → x.eval o env = y.eval o env)
+include hsound
 
-theorem E.toGA_denote (o : Ops R) (ho : RingLike o) (env : Nat → R) (A : List E) (e : E)
-    (hA : ∀ t ∈ e.atoms, Repr' A t) :
-    (e.toGA A).denote (atomCtx o env A) = e.eval o env := by
+theorem atomCtx_get (A : List E) (t : E) (ht : Repr' eqv A t) :
+    (atomCtx o env A).get (atomIdxW eqv A t) = t.eval o env := by
+  obtain ⟨a, ha, hat⟩ := ht
+  have hex : ∃ x ∈ A, (eqv · t) x = true := ⟨a, ha, hat⟩
+  have hlt : atomIdxW eqv A t < A.length := List.findIdx_lt_length_of_exists hex
+  rw [atomCtx_get_lt o env A _ hlt]
+  exact hsound _ _ (List.findIdx_getElem (p := (eqv · t)) (w := hlt))
+
+theorem E.toGAW_denote (ho : RingLike o) (A : List E) (e : E)
+    (hA : ∀ t ∈ e.atoms, Repr' eqv A t) :
+    (e.toGAW eqv A).denote (atomCtx o env A) = e.eval o env := by
   induction e with
   | add a b iha ihb =>
     simp only [E.atoms, List.mem_append] at hA
-    simp only [E.toGA, Expr.denote, E.eval, ho.add]
+    simp only [E.toGAW, Expr.denote, E.eval, ho.add]
     rw [← iha (fun t h => hA t (Or.inl h)), ← ihb (fun t h => hA t (Or.inr h))]; rfl
   | sub a b iha ihb =>
     simp only [E.atoms, List.mem_append] at hA
-    simp only [E.toGA, Expr.denote, E.eval, ho.sub]
+    simp only [E.toGAW, Expr.denote, E.eval, ho.sub]
     rw [← iha (fun t h => hA t (Or.inl h)), ← ihb (fun t h => hA t (Or.inr h))]; rfl
   | mul a b iha ihb =>
     simp only [E.atoms, List.mem_append] at hA
-    simp only [E.toGA, Expr.denote, E.eval, ho.mul]
+    simp only [E.toGAW, Expr.denote, E.eval, ho.mul]
     rw [← iha (fun t h => hA t (Or.inl h)), ← ihb (fun t h => hA t (Or.inr h))]; rfl
   | neg a iha =>
     simp only [E.atoms] at hA
-    simp only [E.toGA, Expr.denote, E.eval, ho.neg]
+    simp only [E.toGAW, Expr.denote, E.eval, ho.neg]
     rw [← iha hA]; rfl
   | lit n d =>
     by_cases hd : d = 1
-    · subst hd; simp [E.toGA, Expr.denote, E.eval, ho.lit]
+    · subst hd; simp [E.toGAW, Expr.denote, E.eval, ho.lit]
     · have hd' : (d == 1) = false := by simpa using hd
-      simp only [E.toGA, hd', Bool.false_eq_true, if_false]
-      exact atomCtx_get ho env A _ (hA _ (by simp [E.atoms, hd']))
-  | _ => exact atomCtx_get ho env A _ (hA _ (by simp [E.atoms]))
+      simp only [E.toGAW, hd', Bool.false_eq_true, if_false]
+      exact atomCtx_get env hsound A _ (hA _ (by simp [E.atoms, hd']))
+  | _ => exact atomCtx_get env hsound A _ (hA _ (by simp [E.atoms]))
+
+theorem polyEqW_sound (ho : RingLike o) (hrefl : ∀ x, eqv x x = true) {a b : E}
+    (h : polyEqW eqv a b = true) : a.eval o env = b.eval o env := by
+  simp only [polyEqW] at h
+  have ha : ∀ t ∈ a.atoms, Repr' eqv (atomTableW eqv [a, b]) t :=
+    fun t ht => repr_atomTable hrefl (e := a) (by simp) ht
+  have hb : ∀ t ∈ b.atoms, Repr' eqv (atomTableW eqv [a, b]) t :=
+    fun t ht => repr_atomTable hrefl (e := b) (by simp) ht
+  rw [← E.toGAW_denote env hsound ho _ a ha, ← E.toGAW_denote env hsound ho _ b hb]
+  exact Expr.eq_of_toPoly_eq _ _ _ h
+
+end W
+
+theorem atomEqW_refl (peq : E → E → Bool) (x : E) : atomEqW peq x x = true := by simp [atomEqW]
+
+theorem atomEqW_sound {o : Ops R} (env : Nat → R) {peq : E → E → Bool}
+    (hp : ∀ a b, peq a b = true → a.eval o env = b.eval o env) {x y : E}
+    (h : atomEqW peq x y = true) : x.eval o env = y.eval o env := by
+  unfold atomEqW at h
+  rw [Bool.or_eq_true] at h
+  rcases h with h | h
+  · rw [eq_of_beq h]
+  · split at h
+    · rename_i f a g b
+      simp only [Bool.and_eq_true] at h
+      simp only [E.eval, eq_of_beq h.1, hp _ _ h.2]
+    · rename_i f a1 a2 g b1 b2
+      simp only [Bool.and_eq_true] at h
+      simp only [E.eval, eq_of_beq h.1.1, hp _ _ h.1.2, hp _ _ h.2]
+    · rename_i a1 a2 b1 b2
+      simp only [Bool.and_eq_true] at h
+      simp only [E.eval, hp _ _ h.1, hp _ _ h.2]
+    · simp at h
+
+theorem polyEqN_sound {o : Ops R} (ho : RingLike o) (env : Nat → R) (n : Nat) :
+    ∀ a b, polyEqN n a b = true → a.eval o env = b.eval o env := by
+  induction n with
+  | zero => intro a b h; simp only [polyEqN] at h; rw [eq_of_beq h]
+  | succ n ih =>
+    intro a b h
+    simp only [polyEqN] at h
+    exact polyEqW_sound env (fun x y hxy => atomEqW_sound env ih hxy) ho (atomEqW_refl _) h
 
 theorem polyEq_sound' {o : Ops R} (ho : RingLike o) {a b : E} (h : polyEq a b = true) (env : Nat → R) :
-    a.eval o env = b.eval o env := by
-  simp only [polyEq] at h
-  have ha : ∀ t ∈ a.atoms, Repr' (atomTable [a, b]) t := fun t ht => repr_atomTable (e := a) (by simp) ht
-  have hb : ∀ t ∈ b.atoms, Repr' (atomTable [a, b]) t := fun t ht => repr_atomTable (e := b) (by simp) ht
-  rw [← E.toGA_denote o ho env _ a ha, ← E.toGA_denote o ho env _ b hb]
-  exact Expr.eq_of_toPoly_eq _ _ _ h
+    a.eval o env = b.eval o env := polyEqN_sound ho env 4 a b h
 
 /-- the ring-semantics instance used by the division-free families -/
 theorem polyEq_sound {a b : E} (h : polyEq a b = true) (env : Nat → R) :
